@@ -20,10 +20,66 @@ fn self_tests() {
     oracle::scales::self_test();
 }
 
+/// When the library sources contain shared mutable state, the state a process starts with matters too (a table built
+/// lazily from the first argument seen, a cache that is empty only once): the order-independence menus of the property are
+/// run again in FRESH processes, one per prelude of `props::perturb` (prelude 0 = nothing), the prelude being the first use
+/// of the library in that process. A child that reports a violation the parent run does not have is an order dependence on
+/// the first calls of the process.
+fn fresh_process_exploration(rep: &mut Report, id: &str, tier: &str) {
+    let (state_lines, files) = report::shared_state_scan();
+    if state_lines == 0 || std::env::var("HMC_CHILD").is_ok() {
+        return;
+    }
+    eprintln!("NOTE [{id}] shared mutable state in the library sources ({state_lines} lines in {files:?}): deeper call sequences and fresh-process exploration are on");
+    let Ok(exe) = std::env::current_exe() else { return };
+    let scratch = format!("{}/target/scratch/fresh/{id}", report::verif());
+    let _ = std::fs::create_dir_all(&scratch);
+    let _ = std::fs::copy(format!("{}/KNOWN_FINDINGS.txt", report::verif()), format!("{scratch}/KNOWN_FINDINGS.txt"));
+    let parent_sigs: std::collections::BTreeSet<String> = rep.total.sig_counts.keys().cloned().collect();
+    // menu sizes are not known here: the children take HMC_FIRST_OP modulo their menu size; 256 covers every menu
+    let mut runs: Vec<(usize, usize)> = (0..props::perturb::count()).map(|k| (k, 0usize)).collect();
+    runs.extend((1..256usize).map(|j| (0usize, j)));
+    let found = std::sync::Mutex::new(None::<String>);
+    let next = std::sync::atomic::AtomicUsize::new(0);
+    std::thread::scope(|sc| {
+        for _ in 0..8 {
+            sc.spawn(|| loop {
+                let i = next.fetch_add(1, std::sync::atomic::Ordering::Relaxed);
+                if i >= runs.len() || found.lock().unwrap().is_some() {
+                    break;
+                }
+                let (k, j) = runs[i];
+                let dir = format!("{scratch}/{i}");
+                let _ = std::fs::create_dir_all(&dir);
+                let _ = std::fs::copy(format!("{}/KNOWN_FINDINGS.txt", report::verif()), format!("{dir}/KNOWN_FINDINGS.txt"));
+                let out = std::process::Command::new(&exe).args(["check", id, tier]).env("HMC_FIRST", k.to_string()).env("HMC_FIRST_OP", j.to_string()).env("HMC_ONLY_ORDER", "1").env("HMC_CHILD", "1").env("HMC_THREADS", "1").env("HMC_VERIF", &dir).output();
+                let Ok(out) = out else { continue };
+                let text = String::from_utf8_lossy(&out.stdout);
+                for line in text.lines().filter(|l| l.starts_with("VIOLATION")) {
+                    let sig = line.split("signature=").nth(1).and_then(|s| s.split(' ').next()).unwrap_or("?").to_string();
+                    if !parent_sigs.contains(&sig) {
+                        *found.lock().unwrap() = Some(format!("prelude '{}', then operation #{j} of the menu first: {}", props::perturb::name(k), line.chars().take(400).collect::<String>()));
+                        break;
+                    }
+                }
+                let _ = std::fs::remove_dir_all(&dir);
+            });
+        }
+    });
+    if let Some(what) = found.into_inner().unwrap() {
+        let check = format!("{}.order", id.to_lowercase());
+        rep.total.viol(&check, "result-depends-on-the-first-calls-of-the-process".into(), vec!["rerun".into()], "the order-independence menu holds in a fresh process whatever the process did first".into(), what);
+    }
+}
+
 fn main() {
     let args: Vec<String> = std::env::args().collect();
     if args.len() < 2 {
         usage();
+    }
+    // fresh-process exploration: the prelude named by HMC_FIRST is the very first use of the library in this process
+    if let Some(k) = std::env::var("HMC_FIRST").ok().and_then(|s| s.parse::<usize>().ok()) {
+        props::perturb::run(k);
     }
     // oracle self tests run with the default hook so that a failure is loud
     self_tests();
@@ -49,6 +105,7 @@ fn main() {
             };
             let mut rep = Report::new(&id, tier);
             run(&mut rep);
+            fresh_process_exploration(&mut rep, &id, tier);
             std::process::exit(rep.finish());
         }
         "replay" => {
